@@ -3,7 +3,7 @@
 h=$1; shift
 cd /var/tmp/h2probe/ext
 start=$(date +%s)
-CARGO_NET_OFFLINE=true timeout ${CAP:-300} cargo kani --target-dir /var/tmp/h2probe/tgt/${h##*::} --harness $h --exact "$@" > /var/tmp/h2probe/log.${h##*::} 2>&1
+CARGO_NET_OFFLINE=true timeout ${CAP:-300} cargo kani --target-dir /var/tmp/h2probe/tgt/${h##*::}${TAG} --harness $h --exact "$@" > /var/tmp/h2probe/log.${h##*::}${TAG} 2>&1
 rc=$?
 end=$(date +%s)
-echo "$h rc=$rc wall=$((end-start))s $(grep -E 'VERIFICATION|Runtime Symex|Runtime Convert SSA|Runtime Solver|Verification Time' /var/tmp/h2probe/log.${h##*::} | tr '\n' ' ')" >> /var/tmp/h2probe/results.txt
+echo "$h rc=$rc wall=$((end-start))s $(grep -E 'VERIFICATION|Runtime Symex|Runtime Convert SSA|Runtime Solver|Verification Time' /var/tmp/h2probe/log.${h##*::}${TAG} | tr '\n' ' ')" >> /var/tmp/h2probe/results.txt
